@@ -221,6 +221,36 @@ def run(prop, tier, seed, replay):
                 if d:
                     ck.add_tie_break("histjk impl vs model", {"diff": d, "request": reqs[ci]})
 
+    # stratum: the jackknife samples of the n(z) estimate ARE the estimate of the samples (unequal bin widths, with and
+    # without bias corrections): sample k of from_corrdata(x, r, u) = from_corrdata of sample k of x, r, u
+    from yaw import RedshiftData
+    from yaw.correlation.corrdata import CorrData as _CD
+    for ni in range(10 if tier == "quick" else 100):
+        B = [3, 4, 6][ni % 3]
+        M = rng.choice([2, 3, 5])
+        from yaw.binning import Binning
+        edges = np.concatenate([[0.1], 0.1 + np.cumsum([[0.05, 0.3, 0.1, 0.25, 0.125, 0.4][(ni + j) % 6] for j in range(B)])])
+        binning = Binning(edges, closed=["left", "right"][ni % 2])
+
+        def mk():
+            a = np.array([[rng.choice([0.5, 1.0, 2.0, 0.25, 3.0, rng.uniform(0.1, 3.0)]) for _ in range(B)] for _ in range(M + 1)])
+            return _CD(binning, a[0], a[1:])
+        cross = mk()
+        ref = mk() if ni % 4 in (1, 3) else None
+        unk = mk() if ni % 4 in (2, 3) else None
+        rd = RedshiftData.from_corrdata(cross, ref, unk)
+        ck.count("nz-samples")
+        ck.case(None, ("nz-samples", ni))
+        for kk in range(M):
+            one = lambda cd: None if cd is None else _CD(binning, cd.samples[kk], cd.samples[[kk]])  # noqa: E731
+            want = RedshiftData.from_corrdata(one(cross), one(ref), one(unk)).data
+            if not np.array_equal(rd.samples[kk], want, equal_nan=True):
+                ck.add_violation(f"jackknife sample {kk} of the n(z) estimate differs from the estimate computed from sample {kk} "
+                                 f"of its inputs (bin widths {np.diff(edges).tolist()})",
+                                 {"kind": "nz-samples", "edges": edges.tolist(), "cross": cross.samples.tolist(),
+                                  "sample": kk, "got": rd.samples[kk].tolist(), "want": want.tolist()})
+                break
+
     # stratum: many patches (index arithmetic of the resampling; the Lean model is size-independent, the arrays are not)
     for N_big in ([64, 182, 200, 257] if tier == "quick" else [64, 181, 182, 183, 200, 256, 257, 400, 1000]):
         counts = np.array([[float(rng.randrange(0, 50)) for _ in range(2)] for _ in range(N_big)])
